@@ -153,58 +153,6 @@ def export(routine, env):
 
 # ---------------------------------------------------------------- python ports of the Lean `Known…` predicates
 
-def _last(T, x):
-    if x[0] == 'n':
-        return (str(x[2]) in T, sbool(x[3]), bool(x[6]))
-    return (False, x[0] == 'r', x[0] == 'r')
-
-
-def known_overwrite(T, post, xs):
-    """port of LokiModel.C16.owGo (cross-checked with the Lean driver by the `classify` stream)"""
-    pne, l = False, (False, False, False)
-    for x in xs:
-        if x[0] == 'p':
-            pne = True
-            continue
-        if known_overwrite(T, post, x[-1]):
-            return True
-        if pne:
-            if x[0] == 'n' and str(x[2]) in T:
-                if x[5]:
-                    return True
-            elif post and l[0] and l[1]:
-                if l[2]:
-                    return True
-        pne, l = False, _last(T, x)
-    return bool(post and pne and l[0] and l[2])
-
-
-def known_stray(T, post, xs):
-    """port of LokiModel.C16.strayGo"""
-    pne, l = False, (False, False, False)
-    for x in xs:
-        if x[0] == 'p':
-            pne = True
-            continue
-        if known_stray(T, post, x[-1]):
-            return True
-        pne, l = False, _last(T, x)
-    return bool(post and pne and l[0] and not l[1])
-
-
-def known_dfstale(tabs, x):
-    """port of LokiModel.C16.dfStaleItem"""
-    no_set, no_desc, no_clear = tabs
-    if x[0] == 'p':
-        return False
-    if x[0] == 'r':
-        return any(known_dfstale(tabs, i) for i in x[-1])
-    k = str(x[2])
-    if k != 'Branch' and k not in no_set and k in no_clear:
-        return True
-    return k not in no_desc and any(known_dfstale(tabs, i) for i in x[-1])
-
-
 def _pragmas(xs):
     out = []
     for x in xs:
@@ -248,28 +196,15 @@ def find_owner(root, nid, env):
 class Runner:
     def __init__(self, routine, env):
         self.r, self.env = routine, env
-        self.hazards = []          # known-finding classes whose predicate held on the state an attach step ran on
-        self.tabs = df_tables()
+        self.hazards = []          # known-finding classes whose predicate held on the state a step ran on
 
     def classes(self, names):
         cl = node_classes()
         return tuple(cl[str(n)] for n in names)
 
-    def note_attach(self, T, post):
-        T = [str(t) for t in T]
-        st = export(self.r, self.env)
-        if any(known_overwrite(T, post, x[-1]) for x in st):
-            self.hazards.append('attach-overwrites-slot')
-        if any(known_stray(T, post, x[-1]) for x in st):
-            self.hazards.append('stray-pragma-post')
-
     def note_regions(self):
         if any(known_dup(x[-1]) for x in export(self.r, self.env)):
             self.hazards.append('region-index-by-value')
-
-    def note_df(self):
-        if any(known_dfstale(self.tabs, x) for x in export(self.r, self.env)):
-            self.hazards.append('dataflow-scoped-node-stale')
 
     def kw(self, x):
         return None if isinstance(x, A) and str(x) == 'none' else str(x)
@@ -279,7 +214,6 @@ class Runner:
         for op in ops:
             tag = str(op[0])
             if tag == 'attach':
-                self.note_attach(op[1], sbool(op[2]))
                 r.spec = attach_pragmas(r.spec, self.classes(op[1]), attach_pragma_post=sbool(op[2]))
                 r.body = attach_pragmas(r.body, self.classes(op[1]), attach_pragma_post=sbool(op[2]))
             elif tag == 'detach':
@@ -293,7 +227,6 @@ class Runner:
                 r.spec = detach_pragma_regions(r.spec)
                 r.body = detach_pragma_regions(r.body)
             elif tag == 'dfattach':
-                self.note_df()
                 attach_dataflow_analysis(r)
             elif tag == 'dfdetach':
                 detach_dataflow_analysis(r)
@@ -302,7 +235,6 @@ class Runner:
             elif tag == 'raise':
                 raise Boom()
             elif tag == 'with-pragmas':
-                self.note_attach(op[1], sbool(op[2]))
                 with pragmas_attached(r, self.classes(op[1]), attach_pragma_post=sbool(op[2])):
                     self.run(op[3])
             elif tag == 'with-regions':
@@ -310,7 +242,6 @@ class Runner:
                 with pragma_regions_attached(r, keyword=self.kw(op[1])):
                     self.run(op[2])
             elif tag == 'with-df':
-                self.note_df()
                 with dataflow_analysis_attached(r):
                     self.run(op[1])
             else:
@@ -345,7 +276,7 @@ class Runner:
             import traceback
             if not traceback.extract_tb(e.__traceback__)[-1].filename.endswith('pragma_utils.py'):
                 raise      # malformed request (e.g. while shrinking), not the real code
-            return 'indexerror'
+            return 'indexerror'      # cannot happen since the fix of get_matching_region_pragmas; the model never answers this
 
 
 # ---------------------------------------------------------------- observation used by the direct oracle
@@ -590,29 +521,29 @@ class C16(Prop):
     model_modules = ['LokiModel.C16.Model', 'LokiModel.Generated.C16Tables']
     props_module = 'LokiModel.Props.C16'
     driver = 'Drivers/C16.lean'
-    theorems = ['C16_full_false', 'C16_detach_attach_partial', 'C16_detach_attach', 'C16_detach_attach_clean_full_false',
-                'C16_nodeIds_attach', 'C16_nodeIds_detach', 'C16_regions_full_false', 'C16_regions_roundtrip_partial',
-                'C16_regions_roundtrip', 'C16_nodeIds_regions', 'C16_dataflow_full_false', 'C16_dataflow_roundtrip_partial',
-                'C16_bracket_restores', 'C16_bracket_raise', 'C16_bracket_df', 'C16_bracket_regions', 'runOps_exc']
+    theorems = ['C16_full', 'C16_detach_attach', 'C16_nodeIds_attach', 'C16_nodeIds_detach', 'C16_regions_full_false',
+                'C16_regions_roundtrip_partial', 'C16_regions_roundtrip', 'C16_nodeIds_regions', 'C16_dataflow_full_false',
+                'C16_dataflow_roundtrip_partial', 'C16_dataflow_roundtrip', 'C16_bracket_restores', 'C16_bracket_raise',
+                'C16_bracket_df', 'C16_bracket_regions', 'runOps_exc']
     design_ref = 'DESIGN.md 4.B C16'
     level = 'proof'
     level_text = ('Lean theorems (kernel-checked, every body of any size and nesting, every set of node types, with and without '
-                  'pragma_post handling): the full statements are FALSE for the unchanged code (C16_full_false, '
-                  'C16_detach_attach_clean_full_false, C16_regions_full_false, C16_dataflow_full_false, each by a witness replayed on '
-                  'the real code). Proved outside decidable classes: C16_detach_attach_partial — detach(attach xs) = detach xs when '
-                  'attach overwrites no non-empty slot (KnownOverwrite) and creates no stray pragma_post attribute (KnownStrayPost); '
-                  'C16_detach_attach — for frontend state (all slots empty) detach(attach xs) = xs outside KnownStrayPost, pragmas in any '
-                  'position; C16_nodeIds_attach/_detach — identities and order of all non-pragma nodes are kept unconditionally; '
-                  'C16_regions_roundtrip(_partial) / C16_nodeIds_regions — PragmaRegionDetacher undoes PragmaRegionAttacher for ANY list of '
-                  'pragma pairs (matched, unmatched, cross-level) whenever value-index finds the paired objects in order (KnownRegionIndex '
-                  '= false); C16_dataflow_roundtrip_partial — detaching clears exactly the fields attaching set unless a node class is '
-                  'annotated by the attacher and skipped by the detacher (table generated from the handler dispatch of the real classes); '
-                  'C16_bracket_restores/_raise/_df/_regions — the three context managers restore the unit on normal AND exceptional exit '
-                  'and the exception propagates. NOT proved, checked on every generated input only: pairwise-distinct pragmas imply '
-                  'KnownRegionIndex = false (the reported class is the duplicate-pragma predicate); properties of get_matching_region_pragmas '
-                  '(only modelled and compared). Model tied to the code by running the real functions and context managers on '
-                  'frontend-parsed generated routines for whole histories (function forms, context managers, nested, raising bodies, '
-                  'attach-edit-attach-detach, arbitrary interleavings) and diffing the exported IR with the Lean driver.')
+                  'pragma_post handling). FULL strength since the fix: commits for attach-overwrites-slot, stray-pragma-post, '
+                  'dataflow-scoped-node-stale and region-match-indexerror: C16_full — detach(attach xs) = detach xs for EVERY body, slots '
+                  'possibly already attached (attach; edit; attach; detach); C16_detach_attach — detach(attach xs) = xs for every frontend-state '
+                  'body, pragmas in any position; C16_nodeIds_attach/_detach — identities and order of all non-pragma nodes are kept; '
+                  'C16_dataflow_roundtrip — with the handler table generated from the real classes (no class is skipped by the detacher) '
+                  'detaching clears exactly the fields attaching set (C16_dataflow_roundtrip_partial/C16_dataflow_full_false: parametric in the '
+                  'table, false for a table that skips a class); C16_bracket_restores/_raise/_df/_regions — the three context managers restore '
+                  'the unit on normal AND exceptional exit and the exception propagates. PARTIAL (open finding region-index-by-value): '
+                  'C16_regions_full_false — the region round trip is false with ==-equal pragmas; C16_regions_roundtrip(_partial) / '
+                  'C16_nodeIds_regions — PragmaRegionDetacher undoes PragmaRegionAttacher for ANY list of pragma pairs (matched, unmatched, '
+                  'cross-level) whenever value-index finds the paired objects in order (KnownRegionIndex = false). NOT proved, checked on '
+                  'every generated input only: pairwise-distinct pragmas imply KnownRegionIndex = false (the reported class is the '
+                  'duplicate-pragma predicate); properties of get_matching_region_pragmas (only modelled and compared). Model tied to the '
+                  'code by running the real functions and context managers on frontend-parsed generated routines for whole histories '
+                  '(function forms, context managers, nested, raising bodies, attach-edit-attach-detach, arbitrary interleavings) and '
+                  'diffing the exported IR with the Lean driver.')
     level_note = ('Hand-written model of PragmaAttacher/Detacher.visit_tuple, get_matching_region_pragmas, PragmaRegionAttacher/Detacher, the '
                   'set/clear behaviour of the dataflow attacher/detacher (not the computed sets: C26/C27) and the try/finally structure of the '
                   'context managers. Slots: [] stands for None and (); nodes with several bodies are exported with one Branch pseudo node per '
@@ -621,15 +552,14 @@ class C16(Prop):
     technique = 'Lean 4 theorems about a hand-written model + correspondence of whole attach/detach histories with the real code'
     rule = ('random Fortran routines (loops, while, if/else, select case, associate, calls, declarations; pragmas before/after/between, '
             'matched, unmatched, cross-level, mixed-case and duplicate region pragmas, `end`-only pragmas) parsed by the real frontend; '
-            '11 kinds of histories per routine; non-trivial = the routine contains pragmas; distinct by request line')
+            '11 kinds of histories per routine plus a region-flag request; non-trivial = the routine contains pragmas; distinct by request line')
     trusted_base = ['harness/props/c16.py exporter (real IR -> model items: identity numbering, Source numbering, Branch pseudo nodes)',
-                    'Python ports known_overwrite/known_stray/known_dfstale/known_dup of the Lean Known predicates (cross-checked by the classify and regflags streams)',
+                    'Python port known_dup of the Lean KnownDupPragmas predicate (cross-checked by the regflags stream)',
                     'Lean driver evaluation of model definitions; ASCII String.toLower/splitOn vs str.lower/split']
     assumptions = ['node_type contains neither Pragma nor PragmaRegion and only classes with a `pragma` field',
                    'pragma content is a string (Pragma.content None makes get_matching_region_pragmas raise AttributeError; not generated)',
                    'ASCII pragma text', 'bodies are flat tuples (no nested tuples), no TypeDef in the spec']
     extra_obligations = ['oracle: fgen text, IR repr, node/pragma identities, instance attributes and private dataflow fields before vs after every bracketed history',
-                         'classifier: Python Known predicates = Lean Known predicates on attached/edited states',
                          'regflags: no two ==-equal pragmas implies KnownRegionIndex = false']
 
     def tables(self):
@@ -646,7 +576,7 @@ class C16(Prop):
                 'end LokiModel.C16.Generated\n'}
 
     def gen(self, rng, tier):
-        n = {'quick': 34, 'thorough': 300, 'search': 100}.get(tier, 34)
+        n = {'quick': 28, 'thorough': 300, 'search': 100}.get(tier, 28)
         for k in range(n):
             src = gen_source(rng, rng.choice([6, 10, 16, 24]))
             try:
@@ -662,12 +592,10 @@ class C16(Prop):
             for kind in (KINDS if tier != 'quick' else rng.sample(KINDS, 5)):
                 ops = gen_ops(rng, kind, st0, newid)
                 yield Case([A('run'), src, st0, ops], stream=kind, nontrivial=bool(_pragmas(sum((x[-1] for x in st0), []))))
-            # classifier cross-check on a state with attached slots (and sometimes a freshly inserted pragma)
+            # state with attached slots and freshly inserted (possibly duplicate) pragmas for the region flags
             pre_ops = gen_ops(rng, 'edit', st0, newid)[:rng.randint(1, 3)]
             pre_ops = [o for o in pre_ops if str(o[0]) in ('attach', 'insert')]
             Runner(routine, env).status(pre_ops)
-            T = rand_types(rng)
-            yield Case([A('classify'), [A(t) for t in T], rng.random() < 0.75, export(routine, env)], stream='classify')
             yield Case([A('regflags'), rng.choice([A('none'), 'loki', 'omp']), export(routine, env)], stream='regflags')
 
     # ---- real code
@@ -679,11 +607,6 @@ class C16(Prop):
                 return [A('error'), A('stale-export')]
             status = Runner(routine, env).status(req[3])
             return [A(status), export(routine, env)]
-        if op == 'classify':
-            T, post, st = [str(t) for t in req[1]], sbool(req[2]), req[3]
-            tabs = df_tables()
-            return [A('classes'), any(known_overwrite(T, post, x[-1]) for x in st),
-                    any(known_stray(T, post, x[-1]) for x in st), any(known_dfstale(tabs, x) for x in st)]
         if op == 'regflags':
             dup = any(known_dup(x[-1]) for x in req[2])
             return [A('flags'), dup, A('any') if dup else False]
@@ -708,16 +631,12 @@ class C16(Prop):
         before = observe(routine)
         runner = Runner(routine, env)
         status = runner.status(ops)
-        if status == 'indexerror':
-            runner.hazards.append('region-match-indexerror')
         after = observe(routine)
         inserted = [int(str(o[2][1])) for o in flat_ops(ops) if str(o[0]) == 'insert']
         fails = []
 
         def fail(kind, what):
-            allowed = {'text': ['attach-overwrites-slot', 'region-index-by-value', 'region-match-indexerror'],
-                       'attrs': ['stray-pragma-post', 'attach-overwrites-slot', 'region-match-indexerror'],
-                       'dataflow': ['dataflow-scoped-node-stale', 'region-match-indexerror']}[kind]
+            allowed = {'text': ['region-index-by-value'], 'attrs': [], 'dataflow': []}[kind]
             cls = next((h for h in allowed if h in runner.hazards), None)
             fails.append(Failure(f'{what} [history {dumps(ops)[:160]}]', cls))
 
@@ -751,8 +670,7 @@ class C16(Prop):
         return fails
 
     def classes(self):
-        return ['attach-overwrites-slot', 'stray-pragma-post', 'region-index-by-value', 'dataflow-scoped-node-stale',
-                'region-match-indexerror']
+        return ['region-index-by-value']
 
 
 PROP = C16()
